@@ -191,8 +191,13 @@ class Prop:
             elif name == 'setna': op = ['setna', [a['flat'][0]], False]
             elif name == 'binop': ins = [a, copy.deepcopy(a)]; op = ['binop', rng.choice(['+', '*', '-']), 1, False]
             elif name == 'scalar_op': op = ['scalar_op', '*', 2, rng.random() < 0.5]
-            elif name == 'stack': ins = [a, copy.deepcopy(a)]; op = ['stack', 'k', [1, 2], 'i', False, False, False]
-            elif name == 'concatenate': ins = [a, copy.deepcopy(a)]; op = ['concatenate', d, False, False]
+            elif name == 'stack':
+                # (a list holding a single array is joined like any other: the result is a new array without the operand's metadata)
+                ins = [a, copy.deepcopy(a)] if rng.random() < 0.6 else [a]
+                op = ['stack', 'k', [1, 2][:len(ins)], 'i', False, False, False]
+            elif name == 'concatenate':
+                ins = [a, copy.deepcopy(a)] if rng.random() < 0.6 else [a]
+                op = ['concatenate', d, False, False]
             elif name == 'compare': op = ['compare', rng.choice(['==', '<', '>=']), 12.0]
             else: op = ['neg']
             cases.append({'ins': ins, 'ops': more + [op], 'kind': 'keep' if name in Prop.KEEP else 'drop', 'axis': d})
